@@ -618,13 +618,13 @@ def run(ctx):
 
     # ---- thread counts: fresh process each, bitwise comparison of every output -------------
     tcounts = list(range(2, 17)) if thorough else [2, 3, 4, 7, 16]
-    reps = 3 if thorough else 1
+    reps = 2 if thorough else 1
 
     def one(n):
         p = {'cases': [strip_case(c) for c in cases], 'threads': n, 'mode': 'digest'}
         return n, ctx.impl.run(DRIVER, p, timeout=2400)
     jobs = [n for n in tcounts for _ in range(reps)]
-    with ThreadPoolExecutor(max_workers=4) as ex:
+    with ThreadPoolExecutor(max_workers=5) as ex:
         tres = list(ex.map(one, jobs))
     log('[C08] %d thread-count runs done at %.1fs' % (len(jobs), time.time() - t0))
     nthread_cmp = 0
